@@ -109,6 +109,29 @@ def headers(i1: int, i2: int, i3: int, v1: str, v2: str, v3: str) -> bool:
     return True
 
 
+def header_value(v: str) -> bool:
+    """
+    pre: len(v) == CASE["n"]
+    pre: okval(v)
+    post: __return__
+    """
+    # the value as sent, through the real parse_headers and wsgi.create: only SP / HTAB around it are not part of it
+    r = mk_req()
+    r.method, r.uri, r.path, r.query, r.fragment, r.version = "GET", "/", "/", "", "", (1, 1)
+    from gunicorn.http.errors import InvalidHeader, InvalidHeaderName, ObsoleteFolding, LimitRequestHeaders
+    try:
+        r.headers = r.parse_headers(b"X-A:" + v.encode("latin-1"))
+    except (InvalidHeader, InvalidHeaderName, ObsoleteFolding, LimitRequestHeaders):
+        return True
+    environ = env_for(r)
+    lo, hi = 0, len(v)
+    while lo < hi and (v[lo] == " " or v[lo] == "\t"):
+        lo += 1
+    while hi > lo and (v[hi - 1] == " " or v[hi - 1] == "\t"):
+        hi -= 1
+    return environ.get("HTTP_X_A") == v[lo:hi]
+
+
 # ---- 3. target forms ----------------------------------------------------------------------------------------------------
 REP = ["a", "/", "?", "%", "4", "1", "F", "g", ":", "@", ";", ".", "\xe9", "*", "=", "&", "\t", "\r", "\n", "\x01",
        "\x7f", "[", "+", "\\"]
@@ -197,6 +220,9 @@ OBLIGATIONS = [
        timeout={"quick": 900, "thorough": 3000},
        bound="2 (thorough 3) headers with names from {X-A, X-B, Content-Type, Content-Length, Host} incl. repeats, values of "
              "<=1 (thorough 2) arbitrary field-value characters"),
+    Ob("C15.header_value", "header_value", cases={"quick": [{"n": 1}, {"n": 2}], "thorough": [{"n": 1}, {"n": 2}, {"n": 3}]},
+       timeout={"quick": 900, "thorough": 3000},
+       bound="one header whose value is 1..2 (thorough 3) arbitrary field-value characters, through the real parse_headers"),
     Ob("C15.target", "target",
        cases={"quick": [{"form": f, "n": 2} for f in range(4)] + [{"form": f, "n": 1} for f in (4, 5, 6)],
               "thorough": [{"form": f, "n": 3} for f in range(4)] + [{"form": f, "n": 2} for f in (4, 5, 6)]},
